@@ -5,7 +5,7 @@
   Model: XsModel/Registry.lean - the start-up scan of src/handlers/serve.rs as a fold
   (`compactStep`) over the stored stream, keyed by (context, name).
 -/
-import XsProofs.Registry
+import XsProofs.ServeSys
 namespace Xs.C17
 open Xs.Serve
 
@@ -51,6 +51,26 @@ theorem restored_iff_started_instance_still_running (parse : SFrame → Except S
       (run st.cfg eval .running env
         (subscription st.cfg st.resume (P ++ r :: Q) ((s' ++ ext).drop st.subAt) thr)).1 = .running :=
   restart_restores_started parse hparse name P Q r s' st h ext thr hnd later hres eval env ann
+
+/-- … and in the closed system both assumptions are theorems: for every interleaving of client
+    appends and instance steps after `Handler::spawn`, once the instance has been handed
+    everything, a restart on the whole stored stream starts its `.register` again exactly when the
+    instance is still running.  (Left as hypotheses: ids are distinct and increase after `r`; an
+    `after` resume point is not in the future; nobody but the instance writes its stop
+    announcement - not the script, not a client, and none is stored before it subscribed.) -/
+theorem restart_restores_exactly_the_running_instance (parse : SFrame → Except String (HCfg × Resume))
+    (hparse : ParseOk parse) (name : String) (P Q : List SFrame) (r : SFrame) (s' : List SFrame) (st : Started)
+    (h : startHandler parse name (P ++ r :: Q) r = (s', some st)) (thr : SFrame)
+    (eval : σ → SFrame → σ × EvalRes) (hno : NoSelfAnnounce st.cfg eval) (env0 : σ)
+    (as : List LAct) (s : LiveSys σ)
+    (e : lrun st.cfg eval (subPre st.cfg st.resume (P ++ r :: Q) thr) (LiveSys.started st.cfg env0) as = some s)
+    (hq : s.quiescent st.cfg (subPre st.cfg st.resume (P ++ r :: Q) thr))
+    (hnd : (P ++ r :: (Q ++ s.live)).Nodup)
+    (later : ∀ f ∈ Q ++ s.live, r.id < f.id)
+    (hres : ∀ x, st.resume = .after x → x ≤ r.id)
+    (hQ : ∀ f ∈ Q, announces st.cfg f = false) :
+    r ∈ compact (P ++ r :: (Q ++ s.live)) ↔ s.st = .running :=
+  restart_restores_running_closed parse hparse name P Q r s' st h thr eval hno env0 as s e hq hnd later hres hQ
 
 /-- nothing replaced comes back -/
 theorem replaced_not_restored (pre post : List SFrame) (k : Key) (r r2 : SFrame)
